@@ -323,7 +323,7 @@ func c20Spec() s1Spec {
 // ---- C04 / C05 / C06 on S1 (late maintenance as data) --------------------
 
 func quiesceProfile(name string) *vh.Profile {
-	return &vh.Profile{Name: name, Executors: both(), MinLen: 1, MaxLen: 100, MaxKeys: 10,
+	return &vh.Profile{Name: name, Executors: both(), MinLen: 1, MaxLen: 100, MaxKeys: 10, ExtremeDur: true, // incl. "never expires" deadlines (MaxInt64) that are shortened later
 		Ops: with(vh.BaseOps(), "set", 24, "quiesce", 3, "runtasks", 8, "setmaximum", 3, "invalidate", 6, "compute", 8, "iter", 3)}
 }
 
